@@ -22,8 +22,10 @@
 (* ("a"), None, a predicate, ("a", x, lt(2)), (None, all_(..)), ~any_(..). *)
 (*                                                                         *)
 (* Reference: Eval (interpreted truth value: a raising atom is false, and  *)
-(* whether any atom raised), Select (declarative: the nodes reached by a   *)
-(* chain of matching nodes, listed in document order), Roots.              *)
+(* whether any atom raised), EvalS / Strict (a predicate inside a query:   *)
+(* short-circuit evaluation, raising = not matching), Select (declarative: *)
+(* the nodes reached by a chain of matching nodes, in document order),     *)
+(* Roots.                                                                  *)
 (***************************************************************************)
 EXTENDS Naturals, Sequences, FiniteSets, TLC
 
@@ -82,31 +84,56 @@ EvalR(toks, i, st, v, cr) ==
 Eval(term, v, cr) == EvalR(term, 1, <<>>, v, cr)
 Truth(term, v) == Eval(term, v, FALSE).t
 
-\* What an evaluator (interpreted test() or compiled to_pyfunc()) may answer: the truth
-\* value when nothing raises; when an atom raises either the interpreted value (the raising
-\* atom counts as not matching) or FALSE (the whole query counts as not matching).
+\* Strict evaluation, the semantics of a predicate INSIDE A QUERY: the term is evaluated left to right
+\* with short-circuit `and` / `or`; if an atom that is actually evaluated raises, the whole predicate
+\* "raises" and counts as NOT MATCHING for that node / attribute (whatever negations surround the atom).
+\* [t |-> value, r |-> raised]; when r is TRUE, t is meaningless.
+RECURSIVE EvalSR(_, _, _, _, _)
+EvalSR(toks, i, st, v, cr) ==
+    IF i > Len(toks) THEN st[Len(st)]
+    ELSE LET k == toks[i]
+             n == Len(st)
+             a == st[n - 1]
+             b == st[n]
+             Push2(x) == Append(SubSeq(st, 1, n - 2), x)
+         IN CASE k.op = "atom" -> LET e == AtomEval(k, v, cr) IN
+                                  EvalSR(toks, i + 1, Append(st, [t |-> e = "T", r |-> e = "R"]), v, cr)
+              [] k.op = "not"  -> EvalSR(toks, i + 1, [st EXCEPT ![n] = [t |-> ~@.t, r |-> @.r]], v, cr)
+              [] k.op = "and"  -> EvalSR(toks, i + 1,
+                                         Push2(IF a.r THEN a ELSE IF ~a.t THEN [t |-> FALSE, r |-> FALSE] ELSE b), v, cr)
+              [] OTHER         -> EvalSR(toks, i + 1,
+                                         Push2(IF a.r THEN a ELSE IF a.t THEN [t |-> TRUE, r |-> FALSE] ELSE b), v, cr)
+EvalS(term, v, cr) == EvalSR(term, 1, <<>>, v, cr)
+Raises(term, v)    == EvalS(term, v, FALSE).r
+Strict(term, v, cr) == LET e == EvalS(term, v, cr) IN e.t /\ ~e.r
+
+\* What a stand-alone evaluator (interpreted test() or compiled to_pyfunc()) may answer for a TERM: the
+\* truth value when no atom raises (CompiledEqualsInterpreted); when some atom raises on the value the
+\* statement is silent about the truth value of the term as such (it only speaks about queries, see
+\* Strict): either the interpreted value or FALSE is accepted.
 Allowed(term, v, cr) == LET e == Eval(term, v, cr) IN IF e.r THEN {e.t, FALSE} ELSE {e.t}
-\* Hi: may match, Lo: must match
-Hi(term, v, cr) == Eval(term, v, cr).t
-Lo(term, v, cr) == LET e == Eval(term, v, cr) IN e.t /\ ~e.r
 
-(* ---- one level of a query against one node; hi = TRUE: may match, FALSE: must match ---- *)
-ElemM(e, v, hi, cr) ==
-    IF e.k = "lit" THEN v = e.lit ELSE IF hi THEN Hi(e.term, v, cr) ELSE Lo(e.term, v, cr)
+(* ---- one level of a query against one node.  sem = "strict": the specification (a raising   *)
+(* predicate does not match); sem = "interp": the DEVIATING reading "a raising atom is false,  *)
+(* then the boolean algebra applies" (a negated raising atom matches), evaluated only to NAME  *)
+(* that deviation in rejection signatures ---- *)
+TermM(term, v, sem, cr) == IF sem = "strict" THEN Strict(term, v, cr) ELSE Eval(term, v, cr).t
 
-AttrM(q, nd, hi, cr) ==
+ElemM(e, v, sem, cr) == IF e.k = "lit" THEN v = e.lit ELSE TermM(e.term, v, sem, cr)
+
+AttrM(q, nd, sem, cr) ==
     CASE q.am = "none" -> TRUE
-      [] q.am = "any"  -> \E i \in DOMAIN nd.a : \E j \in DOMAIN q.aq : ElemM(q.aq[j], nd.a[i], hi, cr)
-      [] q.am = "all"  -> \A i \in DOMAIN nd.a : ElemM(q.aq[1], nd.a[i], hi, cr)
-      [] q.am = "nany" -> ~\E i \in DOMAIN nd.a : ElemM(q.aq[1], nd.a[i], ~hi, cr)
-      [] OTHER         -> ~\A i \in DOMAIN nd.a : ElemM(q.aq[1], nd.a[i], ~hi, cr)
+      [] q.am = "any"  -> \E i \in DOMAIN nd.a : \E j \in DOMAIN q.aq : ElemM(q.aq[j], nd.a[i], sem, cr)
+      [] q.am = "all"  -> \A i \in DOMAIN nd.a : ElemM(q.aq[1], nd.a[i], sem, cr)
+      [] q.am = "nany" -> ~\E i \in DOMAIN nd.a : ElemM(q.aq[1], nd.a[i], sem, cr)
+      [] OTHER         -> ~\A i \in DOMAIN nd.a : ElemM(q.aq[1], nd.a[i], sem, cr)
 
-NameM(q, nd, hi, cr) ==
+NameM(q, nd, sem, cr) ==
     CASE q.nk = "any" -> TRUE
       [] q.nk = "lit" -> nd.n = q.nlit
-      [] OTHER        -> IF hi THEN Hi(q.nterm, SV(nd.n), cr) ELSE Lo(q.nterm, SV(nd.n), cr)
+      [] OTHER        -> TermM(q.nterm, SV(nd.n), sem, cr)
 
-Match(q, nd, hi, cr) == NameM(q, nd, hi, cr) /\ AttrM(q, nd, hi, cr)
+Match(q, nd, sem, cr) == NameM(q, nd, sem, cr) /\ AttrM(q, nd, sem, cr)
 
 (* ---- forests ---- *)
 Span(F, i) ==
@@ -132,13 +159,13 @@ Cands(F, recv, deep) ==
     IN IF deep THEN UNION {Subtree(F, c) : c \in top} ELSE top
 
 RECURSIVE Narrow(_, _, _, _, _, _)
-Narrow(F, S, qs, j, hi, cr) ==        \* S: candidates of level j
-    LET R == {m \in S : Match(qs[j], F[m], hi, cr)}
+Narrow(F, S, qs, j, sem, cr) ==       \* S: candidates of level j
+    LET R == {m \in S : Match(qs[j], F[m], sem, cr)}
     IN IF j = Len(qs) THEN R
-       ELSE Narrow(F, UNION {Children(F, m) : m \in R}, qs, j + 1, hi, cr)
+       ELSE Narrow(F, UNION {Children(F, m) : m \in R}, qs, j + 1, sem, cr)
 
-SelectSet(F, recv, qs, deep, hi, cr) == Narrow(F, Cands(F, recv, deep), qs, 1, hi, cr)
-Select(F, recv, qs, deep) == Sorted(SelectSet(F, recv, qs, deep, TRUE, FALSE))      \* document order
+SelectSet(F, recv, qs, deep, sem, cr) == Narrow(F, Cands(F, recv, deep), qs, 1, sem, cr)
+Select(F, recv, qs, deep) == Sorted(SelectSet(F, recv, qs, deep, "strict", FALSE))      \* document order
 RootsOf(F, S) == {RootOf(F, m) : m \in S}
 
 \* the level-by-level formulation on LISTS (what "narrowing" literally does): matches of a
@@ -148,14 +175,14 @@ CatKids(F, ms) == LET RECURSIVE C(_)
                       C(i) == IF i > Len(ms) THEN <<>> ELSE Sorted(Children(F, ms[i])) \o C(i + 1)
                   IN C(1)
 NarrowSeq(F, cs, qs, j) ==
-    LET R == SelectSeq(cs, LAMBDA m : Match(qs[j], F[m], TRUE, FALSE))
+    LET R == SelectSeq(cs, LAMBDA m : Match(qs[j], F[m], "strict", FALSE))
     IN IF j = Len(qs) THEN R ELSE NarrowSeq(F, CatKids(F, R), qs, j + 1)
 SelectOp(F, recv, qs, deep) == NarrowSeq(F, Sorted(Cands(F, recv, deep)), qs, 1)
 
 \* some level's matches contain a node and one of its descendants (only possible when deep)
 RECURSIVE NestedAt(_, _, _, _)
 NestedAt(F, S, qs, j) ==
-    LET R == {m \in S : Match(qs[j], F[m], TRUE, FALSE)}
+    LET R == {m \in S : Match(qs[j], F[m], "strict", FALSE)}
     IN IF j = Len(qs) THEN FALSE
        ELSE (\E m1, m2 \in R : m1 # m2 /\ m2 \in Subtree(F, m1))
             \/ NestedAt(F, UNION {Children(F, m) : m \in R}, qs, j + 1)
@@ -168,23 +195,30 @@ Increasing(s) == \A i, j \in DOMAIN s : i < j => s[i] < s[j]
 \* two or more levels whose intermediate matches are nested (there it is grouped by parent)
 DocumentOrder(F, recv, qs, deep) ==
     LET op == SelectOp(F, recv, qs, deep) IN
-    /\ Rng(op) = SelectSet(F, recv, qs, deep, TRUE, FALSE)
+    /\ Rng(op) = SelectSet(F, recv, qs, deep, "strict", FALSE)
     /\ Len(op) = Cardinality(Rng(op))
     /\ ~Nested(F, recv, qs, deep) => op = Select(F, recv, qs, deep)
 
 RootsDedup(F, recv, qs, deep) ==
-    LET S == SelectSet(F, recv, qs, deep, TRUE, FALSE)
+    LET S == SelectSet(F, recv, qs, deep, "strict", FALSE)
         R == RootsOf(F, S)
     IN /\ \A r \in R : F[r].d = 0 /\ \E m \in S : m \in Subtree(F, r)
        /\ \A m \in S : \E r \in R : m \in Subtree(F, r)
        /\ R \subseteq Rng(recv) \cup {RootOf(F, x) : x \in Rng(recv)}
 
-\* without a raising atom "may match" and "must match" coincide: the answer is exact
-ExactWhenNoRaise(F, recv, qs, deep) ==
-    (\A j \in DOMAIN qs : \A m \in DOMAIN F : Match(qs[j], F[m], TRUE, FALSE) = Match(qs[j], F[m], FALSE, FALSE))
-        => SelectSet(F, recv, qs, deep, TRUE, FALSE) = SelectSet(F, recv, qs, deep, FALSE, FALSE)
-LoBelowHi(F, recv, qs, deep) ==
-    SelectSet(F, recv, qs, deep, FALSE, FALSE) \subseteq SelectSet(F, recv, qs, deep, TRUE, FALSE)
+\* a node on which a predicate of the query raises is never selected through that predicate: for a
+\* one-level query made of ONE Boolean predicate (name position, or the only alternative of the
+\* attribute position of a node with one attribute) raising means not selected
+RaisingNeverMatches(F, recv, qs, deep) ==
+    Len(qs) = 1 =>
+        \A m \in SelectSet(F, recv, qs, deep, "strict", FALSE) :
+            /\ qs[1].nk \in {"term", "fn"} => ~Raises(qs[1].nterm, SV(F[m].n))
+            /\ (qs[1].am = "any" /\ Len(qs[1].aq) = 1 /\ qs[1].aq[1].k # "lit" /\ Len(F[m].a) = 1)
+                   => ~Raises(qs[1].aq[1].term, F[m].a[1])
+\* strict and interpreted evaluation agree when no atom raises; a strict raise needs a raising atom
+StrictLaw(t, v) ==
+    /\ ~Eval(t, v, FALSE).r => (Strict(t, v, FALSE) = Truth(t, v) /\ ~Raises(t, v))
+    /\ Raises(t, v) => Eval(t, v, FALSE).r /\ ~Strict(t, v, FALSE)
 
 \* boolean algebra of the interpreted truth value
 Not(t)    == Append(t, [op |-> "not", f |-> "", ci |-> FALSE, arg |-> IV(0)])
